@@ -474,7 +474,7 @@ class HybridImage(Base):
     reopen = False
     crosscheck = False
     hooks = {'pycdlib.isohybrid.crc32': concrete_crc32_hook}
-    label = property(lambda self: 'pycdlib.PyCdlib.write_fp<hybrid:%s%s>' % (self.variant, ' reopened' if self.reopen else ''))
+    label = property(lambda self: 'pycdlib.PyCdlib.write_fp<hybrid:%s%s>' % (self.variant, {False: '', True: ' reopened', 'edit': ' edited after reopen'}[self.reopen]))
 
     def setup(self, c):
         S.pin_environment(c)
@@ -497,6 +497,11 @@ class HybridImage(Base):
                 S.call(c, iso, 'add_fp', S.data_file(c, a.mac_data), 2049, iso_path='/MAC.IMG;1')
                 S.call(c, iso, 'add_eltorito', '/MAC.IMG;1', efi=True)
         S.call(c, iso, 'add_isohybrid', **hyb)
+        if self.reopen == 'edit':
+            # the later edits are made on the OPENED hybrid image
+            mid = S.written(c, iso)
+            iso = c.new(S.PC)
+            S.call(c, iso, 'open_fp', c.file(mid))
         for op in later:
             if op[0] == 'file':
                 data = c.bytes('later%d' % len(a.contents), op[2])
@@ -505,7 +510,7 @@ class HybridImage(Base):
             else:
                 S.call(c, iso, 'add_directory', iso_path=op[1])
         a.first = None
-        if self.reopen:
+        if self.reopen is True:
             # the same, after the image went through write -> open -> write (C05: parsing restores what mastering depends on)
             a.first = S.written(c, iso)
             iso = c.new(S.PC)
